@@ -55,6 +55,111 @@ def dataSeg (s : String) : Bytes :=
 def dataField (s : String) : Bytes :=
   ((s.splitOn "+").map dataSeg).flatten
 
+/-! `dataField` again, built back to front onto an accumulator: no intermediate list of lists, so the
+peak memory is the result itself (a 13 MB document: 0.3 GB instead of 0.9 GB). -/
+
+def genOnto (seed : Nat) : Nat → Bytes → Bytes
+  | 0, acc => acc
+  | j + 1, acc => genOnto seed j (UInt8.ofNat ((seed * 31 + j * 7 + j / 256) % 256) :: acc)
+
+def repOnto (pat : Bytes) : Nat → Bytes → Bytes
+  | 0, acc => acc
+  | n + 1, acc => repOnto pat n (pat ++ acc)
+
+def numsOnto (p q : Bytes) (start step : Nat) : Nat → Bytes → Bytes
+  | 0, acc => acc
+  | i + 1, acc => numsOnto p q start step i (p ++ (decBytes (start + i * step) ++ (q ++ acc)))
+
+/-- `dataSeg s ++ acc`. -/
+def dataSegOnto (s : String) (acc : Bytes) : Bytes :=
+  match s.toList with
+  | 'g' :: r =>
+    match (String.ofList r).splitOn "." with
+    | [l, sd] => genOnto (sd.toNat?.getD 0) (l.toNat?.getD 0) acc
+    | _ => acc
+  | 'r' :: r =>
+    match (String.ofList r).splitOn "." with
+    | [c, h] => repOnto (unhex h) (c.toNat?.getD 0) acc
+    | _ => acc
+  | 'n' :: r =>
+    match (String.ofList r).splitOn "." with
+    | [c, st, sp, pre, suf] =>
+      numsOnto (unhex pre) (unhex suf) (st.toNat?.getD 0) (sp.toNat?.getD 0) (c.toNat?.getD 0) acc
+    | _ => acc
+  | _ => unhex s ++ acc
+
+/-- `dataField s ++ acc`. -/
+def dataFieldOnto (s : String) (acc : Bytes) : Bytes :=
+  (s.splitOn "+").foldr dataSegOnto acc
+
+/-- Number of whole items `pre ++ decimal(start + i*step) ++ suf`, `i < count`, that fit into `rem`
+bytes, and the bytes they take. -/
+def numsFit (plen qlen start step count rem : Nat) : Nat → Nat → Nat → Nat × Nat
+  | 0, i, used => (i, used)
+  | fuel + 1, i, used =>
+    if i ≥ count then (i, used) else
+    let len := plen + (toString (start + i * step)).length + qlen
+    if used + len > rem then (i, used) else numsFit plen qlen start step count rem fuel (i + 1) (used + len)
+
+/-- `(dataSeg s).take rem ++ acc` without expanding more of the segment than `rem` bytes. -/
+def dataSegTakeOnto (s : String) (rem : Nat) (acc : Bytes) : Bytes :=
+  match s.toList with
+  | 'g' :: r =>
+    match (String.ofList r).splitOn "." with
+    | [l, sd] => genOnto (sd.toNat?.getD 0) (min rem (l.toNat?.getD 0)) acc
+    | _ => acc
+  | 'r' :: r =>
+    match (String.ofList r).splitOn "." with
+    | [c, h] =>
+      let pat := unhex h
+      let count := c.toNat?.getD 0
+      if pat.isEmpty then acc else
+      let k := min count (rem / pat.length)
+      let part := if k < count then pat.take (rem - k * pat.length) else []
+      repOnto pat k (part ++ acc)
+    | _ => acc
+  | 'n' :: r =>
+    match (String.ofList r).splitOn "." with
+    | [c, st, sp, pre, suf] =>
+      let (p, q) := (unhex pre, unhex suf)
+      let (start, step, count) := (st.toNat?.getD 0, sp.toNat?.getD 0, c.toNat?.getD 0)
+      let (k, used) := numsFit p.length q.length start step count rem count 0 0
+      let part := if k < count then (p ++ decBytes (start + k * step) ++ q).take (rem - used) else []
+      numsOnto p q start step k (part ++ acc)
+    | _ => acc
+  | _ => (unhex s).take rem ++ acc
+
+/-- Length of `dataSeg s`, computed without expanding it. -/
+def dataSegLen (s : String) : Nat :=
+  match s.toList with
+  | 'g' :: r =>
+    match (String.ofList r).splitOn "." with
+    | [l, _] => l.toNat?.getD 0
+    | _ => 0
+  | 'r' :: r =>
+    match (String.ofList r).splitOn "." with
+    | [c, h] => (c.toNat?.getD 0) * (unhex h).length
+    | _ => 0
+  | 'n' :: r =>
+    match (String.ofList r).splitOn "." with
+    | [c, st, sp, pre, suf] =>
+      let count := c.toNat?.getD 0
+      (numsFit (unhex pre).length (unhex suf).length (st.toNat?.getD 0) (sp.toNat?.getD 0) count
+        (count * 64 + count * ((unhex pre).length + (unhex suf).length)) count 0 0).2
+    | _ => 0
+  | _ => (unhex s).length
+
+/-- `(dataField s).take cut ++ acc`, expanding no more than `cut` bytes. -/
+def dataFieldTakeOnto (s : String) (cut : Nat) (acc : Bytes) : Bytes :=
+  let rec go : List String → Nat → Bytes
+    | [], _ => acc
+    | sg :: rest, off =>
+      if off ≥ cut then acc else
+      let len := dataSegLen sg
+      if off + len ≤ cut then dataSegOnto sg (go rest (off + len))
+      else dataSegTakeOnto sg (cut - off) acc
+  go (s.splitOn "+") 0
+
 /-- `key=value` fields of a case line. -/
 def fields (line : String) : List (String × String) :=
   (line.splitOn " ").filterMap fun t =>
